@@ -53,14 +53,14 @@ SYMS = ["", "", "", "x", "p*"]
 def suppr_tok(s):
     return ":".join([core.hx(s["id"]), core.hx(s["file"]), str(s["line"]), core.hx(s["sym"]), str(s["hash"]), "1" if s["tanl"] else "0",
                      str(s["type"]), str(s["lb"]), str(s["le"]), str(s["col"]), "1" if s["inline"] else "0", "1" if s["poly"] else "0",
-                     "1" if s["chk"] else "0", "1" if s["mat"] else "0"])
+                     "1" if s["chk"] else "0", "1" if s["mat"] else "0", core.hx(s.get("mac", ""))])
 
 
 def parse_tok(t):
     p = t.split(":")
     return dict(id=core.unhx(p[0]).decode("latin-1"), file=core.unhx(p[1]).decode("latin-1"), line=int(p[2]), sym=core.unhx(p[3]).decode("latin-1"),
                 hash=int(p[4]), tanl=p[5] == "1", type=int(p[6]), lb=int(p[7]), le=int(p[8]), col=int(p[9]), inline=p[10] == "1", poly=p[11] == "1",
-                chk=p[12] == "1", mat=p[13] == "1")
+                chk=p[12] == "1", mat=p[13] == "1", mac=core.unhx(p[14]).decode("latin-1"))
 
 
 def gen_suppr(rng, worker=False):
@@ -84,6 +84,8 @@ def gen_suppr(rng, worker=False):
         s["tanl"] = s["type"] == 0 and rng.random() < 0.15
         if s["type"] == 2:
             s["lb"] = s["line"]; s["le"] = s["line"] + rng.choice([0, 1, 7])
+        if s["type"] == 5:
+            s["mac"] = rng.choice(["M1", "M2"])
     if worker:
         s["chk"] = rng.random() < 0.7
         s["mat"] = s["chk"] and rng.random() < 0.4
@@ -220,7 +222,7 @@ def is_local(s):
 
 
 def same_params(a, b):
-    return all(a[k] == b[k] for k in ("id", "file", "line", "sym", "hash", "tanl"))
+    return all(a.get(k, "") == b.get(k, "") for k in ("id", "file", "line", "sym", "hash", "tanl", "type", "lb", "le", "mac"))
 
 
 def spec_sequence(ops, outs):
